@@ -20,7 +20,8 @@ What is proved here, and how it is tied to the code:
 3. `facts_comply`, `fields_covered`, `unresolved_reviewed` — decided over the access facts
    regenerated from the Go sources on every run (`Refinery.Gen.Access`) against the hand-written
    table (`Refinery.Locks.Table`).
-4. The full statement (all facts comply) is **refuted** on the current tree
+4. The full statement (all facts comply) holds exactly when all race fixes have landed
+   (`full_statement_status`, flags `Table.fixN`); until then it is **refuted**
    (`full_statement_refuted`): the accesses listed in `Table.knownViolations` break their field's
    discipline; each is reproduced on the real code by the race-detector harness.
 -/
@@ -253,11 +254,17 @@ open Refinery.Locks.Table Refinery.Gen.Access
 with its field's discipline. -/
 def FullStatement : Prop := allFactsComply disciplines roles [] accessFacts = true
 
-/-- On the current tree the full statement is false: the accesses in `knownViolations` break
-their field's discipline (each is a data race reproduced by the race-detector harness). -/
-theorem full_statement_refuted : ¬ FullStatement := by
-  unfold FullStatement
+/-- **State of the full statement.** It holds exactly when every race fix has landed
+(`Table.allFixed`); as long as one of the listed violations is still in the tree it is false. -/
+theorem full_statement_status : allFactsComply disciplines roles [] accessFacts = allFixed := by
   decide +kernel
+
+/-- While a fix is outstanding the full statement is refuted: the accesses in `knownViolations`
+break their field's discipline (each is a data race reproduced by the race-detector harness). -/
+theorem full_statement_refuted (h : allFixed = false) : ¬ FullStatement := by
+  unfold FullStatement
+  rw [full_statement_status, h]
+  decide
 
 /-- **`facts_comply`** — apart from the listed known violations, every access to a field of the
 tracked structs, in every function of the analysed packages, complies with the discipline of that
